@@ -363,6 +363,35 @@ def head_patch_guard(ctx, repo):
         ctx.ob("HEAD-patch", f.where, f"{cnorm(inline_locals(f.node, sk.args[0]), env)} is reached only when head.length >= 12", ok or pos, "" if ok or pos else "a head table shorter than 12 bytes makes the 4-byte write clobber the table stored after it")
 
 
+def head_raw_reads(ctx, repo):
+    ctx.rule("HEAD-read", "every fixed-offset read of the raw 'head' bytes the sfnt writer keeps (self.headTable[a:b]) happens only when the table is known to have b bytes: a damaged head carried as raw bytes may be shorter (the sibling of HEAD-patch, which guards the write)", floor=1)
+    from ..cfg import implied_atoms, upper_bound
+    from ..consteval import try_fold
+
+    m = repo.mod("ttLib/sfnt.py")
+    n = 0
+    for q, f in sorted(m.funcs.items()):
+        g = None
+        for x in walk_no_nested(f.node):
+            if isinstance(x, ast.Subscript) and isinstance(x.ctx, ast.Load) and norm(x.value) == "self.headTable" and isinstance(x.slice, ast.Slice) and x.slice.upper is not None:
+                hi = try_fold(x.slice.upper)
+                if not isinstance(hi, int):
+                    continue
+                n += 1
+                g = g or CFG(f.node)
+                ok = False
+                for t, pol in implied_atoms(g, x):
+                    # len(self.headTable) >= k (true) / < k (false) with k >= hi; conjunctions are already split into atoms
+                    for c in ast.walk(t):
+                        if isinstance(c, ast.Compare) and len(c.ops) == 1 and norm(c.left) == "len(self.headTable)":
+                            k = try_fold(c.comparators[0])
+                            if isinstance(k, int) and (pol and isinstance(c.ops[0], ast.GtE) and k >= hi or pol and isinstance(c.ops[0], ast.Gt) and k + 1 >= hi or (not pol) and isinstance(c.ops[0], ast.Lt) and k >= hi or (not pol) and isinstance(c.ops[0], ast.LtE) and k + 1 >= hi):
+                                ok = True
+                ctx.ob("HEAD-read", f.where, f"{norm(x)} only when len(self.headTable) >= {hi}", ok, "" if ok else "a raw head shorter than that makes struct.unpack raise struct.error instead of the font being saved")
+    if n < 1:
+        raise AnalysisError("HEAD-read: no fixed-offset read of self.headTable found in ttLib/sfnt.py (SFNTWriter.close confirmed by hand)")
+
+
 def tagid_discriminator(ctx, repo):
     ctx.rule("TAGID-len", "xmlToTag recognises an escaped table tag by a test that holds for every identifier tagToIdentifier can return: the encoder trims trailing spaces (two characters per remaining tag character) and may prepend '_', so a fixed-length test (len(tag) == 8) misses escaped tags of other lengths", floor=1)
     m = repo.mod("ttLib/ttFont.py")
